@@ -239,8 +239,7 @@ def infer_subject(facts, cls_full):
     return {seqs[0]['name']: 'm_observers', sets[0]['name']: 'm_activeSubscriptions', ints[0]['name']: 'm_subscriptionCounter'}, (entry, emap), ''
 
 
-def renamed_subject_facts(facts, per_class):
-    """per_class: {Subject class: (field map, (entry class, entry map))}"""
+def _subject_tr(per_class):
     def tr(d):
         for nid, n in d['exprs'].items():
             if n.get('k') == 'member' and n.get('field'):
@@ -268,4 +267,62 @@ def renamed_subject_facts(facts, per_class):
                         for e in b['elems']:
                             if e.get('initfield') in fm: e['initfield'] = fm[e['initfield']]
         return d
-    return Facts(facts.dir, [t.name for t in facts.tus], transform=tr)
+    return tr
+
+
+def renamed_subject_facts(facts, per_class):
+    """per_class: {Subject class: (field map, (entry class, entry map))}"""
+    return Facts(facts.dir, [t.name for t in facts.tus], transform=_subject_tr(per_class))
+
+
+_subj_cache = {}
+
+
+def subject_canonical(facts, rep=None):
+    """facts in which every Subject<...> instantiation carries the canonical member names (observer table, active ids, counter) and
+    the canonical names of its two private helpers (the one that removes an id from both containers, the one that tests the active
+    set); identity if nothing differs / roles cannot be told"""
+    key = id(facts)
+    if key in _subj_cache: return _subj_cache[key]
+    per = {}; fnmaps = {}
+    for S in sorted(c for c in facts.classes if strip_targs(c) == 'tulz::Subject' and c != 'tulz::Subject'):
+        fm, entry, why = infer_subject(facts, S)
+        if fm is None: continue
+        per[S] = (fm, entry)
+        obs = next(k for k, v in fm.items() if v == 'm_observers'); act = next(k for k, v in fm.items() if v == 'm_activeSubscriptions')
+        rem = []; tst = []
+        for f in facts.fns:
+            if f.d.get('classfull') != S or f.d.get('lambda') or f.d.get('access') == 'public': continue
+            calls = [(n.n('object').name if n.n('object') is not None and n.n('object').k == 'member' else (n.ns('args')[0].name if n.ns('args') and n.ns('args')[0] is not None and n.ns('args')[0].k == 'member' else None), n.callee_base()) for n in f.nodes() if n.k == 'call']
+            if any(o == act and b in ('erase',) for o, b in calls) and any(o == obs and b in ('remove_if', 'erase', 'erase_if', 'erase_after', 'remove') for o, b in calls): rem.append(f)
+            elif any(o == act and b in ('contains', 'count', 'find') for o, b in calls) and not any(o == obs for o, b in calls): tst.append(f)
+        fn = {}
+        if len(rem) == 1: fn[rem[0].qname.split('::')[-1]] = 'unsubscribeById'
+        if len(tst) == 1: fn[tst[0].qname.split('::')[-1]] = 'isSubscriptionIdValid'
+        fnmaps[S] = fn
+    changed = any(k != v for S, (fm, (e, em)) in per.items() for k, v in list(fm.items()) + list(em.items())) or any(k != v for fn in fnmaps.values() for k, v in fn.items())
+    if not changed:
+        _subj_cache.clear(); _subj_cache[key] = facts; return facts
+    def tr(d):
+        d = _subject_tr(per)(d)
+        for S, fn in fnmaps.items():
+            if not fn: continue
+            for nid, n in d['exprs'].items():
+                for k_ in ('callee', 'calleeq'):
+                    v = n.get(k_)
+                    if isinstance(v, str) and v.startswith(S + '::'):
+                        b = v[len(S) + 2:]; b0 = b.split('(')[0]
+                        if b0 in fn: n[k_] = S + '::' + fn[b0] + b[len(b0):]
+                    elif isinstance(v, str) and k_ == 'calleeq' and v.startswith('tulz::Subject::') and v[len('tulz::Subject::'):] in fn and (n.get('mclassfull') == S or n.get('class') == S):
+                        n[k_] = 'tulz::Subject::' + fn[v[len('tulz::Subject::'):]]
+            for f in d['functions']:
+                if (f.get('classfull') or f.get('class')) == S:
+                    b = f['qname'].split('::')[-1]
+                    if b in fn:
+                        f['qname'] = f['qname'][:-len(b)] + fn[b]; f['name'] = f['name'].replace('::' + b, '::' + fn[b])
+        return d
+    f2 = Facts(facts.dir, [t.name for t in facts.tus], transform=tr)
+    ren = sorted({f'{k} = {v}' for S, (fm, (e, em)) in per.items() for k, v in list(fm.items()) + list(em.items()) if k != v} | {f'{k}() = {v}()' for fn in fnmaps.values() for k, v in fn.items() if k != v})
+    if rep is not None and ren: rep.assume('Subject members recognised by role, reported under their canonical names: ' + ', '.join(ren))
+    _subj_cache.clear(); _subj_cache[key] = f2
+    return f2
